@@ -4,3 +4,7 @@ import props_sched
 REGISTRY = {}
 for _p in props_sched.PROPS:
     REGISTRY[_p] = props_sched.run
+
+import props_values
+for _p in ('C07', 'C09', 'C15'):
+    REGISTRY[_p] = props_values.run
